@@ -9,6 +9,8 @@ Case format (lines of integers; a statement's label is its position among the st
   [3, label, slot, flags, ntp, tp..., SRC]                      one input of the node statement above
         flags bit 0: rank_dependency, bit 1: the source port carries the passive marker (`passive(port)`)
         SRC := 0 ref npath path.. | 1 ph npath path.. | 2 | 3 k SRC*k   (peered/delayed/null/structural)
+               | 6 ref 0   the hidden ERROR output of node ref (exception_time_series(port): activates error
+                           capture on the producing instance, then reads its error output)
   [4, label, ty]                                                delayed_binding placeholder
   [5, label, ph, ref, npath, path..]                            bind placeholder ph to node ref's port
   [6, label, a, b]                                              add_rank_dependency(node a, depends_on b)
@@ -20,14 +22,18 @@ Case format (lines of integers; a statement's label is its position among the st
   [12, cl, child, def, out_ty, has_sc, nsc, sc...]              node statement cl of SUB-GRAPH wiring `child` (a separate
                                                                 Wiring of kind SubGraph, wired after the parent's statements;
                                                                 odd orders wire a child's statements in reverse)
-  [13, cl, child, slot, kind, ref]                              its inputs: kind 0 child-local node ref, 4 declared boundary
-                                                                argument #ref, 5 outer port of PARENT statement ref, captured
+  [13, cl, child, slot, kind, ref, elem]                        its inputs: kind 0 child-local node ref, 4 declared boundary
+                                                                argument #ref (elem >= 0: element elem of a TSL argument),
+                                                                5 outer port of PARENT statement ref, captured
         (lines 12/13 are not modelled in Coq - the decoder skips them; they are judged by the oracle only)
 Implementation output per order k:
   [20,k,code] 0 built, 1 cycle, 2 push-source dependency, 3 unbound placeholder, 4 self dependency,
               6 inadmissible order, 8 rebind, 9 passive marker on every active input, 10 anchor conflict, 5 other
   [27,k,creator,active slots...]  active-input list of each compiled native node with inputs
   [28,k,child,err,cl,rep(cl),...] interning map of each sub-graph wiring
+  [29,k,same]                     1 iff two more builds of the same wiring in this process (allocations in
+                                  between) compiled the same node order
+  [30,k,creators...]              compiled nodes that capture errors
   [23,k,rep(label)...]  label of the statement whose node each node statement was merged into (-1: not a node)
   [21,k,n,creator label of node 0..n-1]     [22,k,src,srckind,tgt,nsp,sp..,ntp,tp..] compiled edges
   [24,k,sink label,t1,v1,...] stream seen by each sink   [25,k,creator,evals,...]   [26,k,1] run error
@@ -41,13 +47,19 @@ PIPE = True
 BUDGET = {"quick": 300, "thorough": 4000}
 
 PROP_KINDS = {
-    "C01": {"order", "dep_order", "verdict", "push_prefix", "perm", "edges", "handover"},
-    "C06": {"merge", "sink_merged", "streams", "evals", "perm", "verdict_varies", "count_varies", "passive_marker_not_in_key", "handover"},
+    # C03 at the wiring level: a passive-marked input must not be among the node's active inputs (it alone
+    # never runs the node), for the node of EVERY statement that carries the marker
+    "C03": {"passive_marker_not_in_key", "passive_marker_ignored"},
+    "C01": {"order", "dep_order", "verdict", "push_prefix", "perm", "edges", "handover", "order_not_canonical"},
+    "C06": {"merge", "sink_merged", "streams", "evals", "perm", "verdict_varies", "count_varies", "passive_marker_not_in_key", "passive_marker_ignored", "handover", "order_not_canonical", "subgraph_merge"},
+    "C09": {"subgraph_merge"},
 }
 
 
 # --------------------------------------------------------------------------- program <-> case
 def enc_src(s):
+    if s[0] == "e":
+        return [6, s[1], 0]
     if s[0] == "p":
         return [0, s[1], len(s[2])] + list(s[2])
     if s[0] == "d":
@@ -62,6 +74,8 @@ def enc_src(s):
 
 def dec_src(l, p):
     k = l[p]
+    if k == 6:
+        return ("e", l[p + 1], ()), p + 3
     if k in (0, 1):
         n = l[p + 2]
         return ("p" if k == 0 else "d", l[p + 1], tuple(l[p + 3:p + 3 + n])), p + 3 + n
@@ -142,7 +156,7 @@ def decode_children(case):
             ch.setdefault(l[2], {})[l[1]] = {"def": l[3], "out": 2 if l[4] == 2 else 1, "has_sc": l[5], "sc": tuple(l[7:7 + l[6]]), "ins": []}
     for l in case:
         if l[0] == 13 and l[2] in ch and l[1] in ch[l[2]]:
-            ch[l[2]][l[1]]["ins"].append((l[4], l[5]))
+            ch[l[2]][l[1]]["ins"].append((l[4], l[5], l[6] if len(l) > 6 else -1))
     return ch
 
 
@@ -165,6 +179,14 @@ def gen_children(rng, prog):
                     stmts.append((d, hs, sc, [(4, i)]))
                 if i < len(caps):
                     stmts.append((d, hs, sc, [(5, caps[i])]))
+            if rng.random() < 0.6:                                      # the same definition on different ELEMENTS of one
+                for e in range(rng.choice([2, 3])):                     # structured (TSL) argument, and on the whole argument slot
+                    stmts.append((d, hs, sc, [(4, nargs, e)]))
+                if rng.random() < 0.5:
+                    stmts.append((d, hs, sc, [(4, nargs, 0)]))          # exact copy of element 0: merges
+                if rng.random() < 0.5:
+                    stmts.append((d, hs, sc, [(4, nargs, 1), (4, nargs, 0)]))
+                    stmts.append((d, hs, sc, [(4, nargs, 0), (4, nargs, 1)]))
             if rng.random() < 0.5:
                 stmts.append((d, hs, sc, [(4, 0)]))                  # exact copy: merges
             if rng.random() < 0.5:
@@ -176,20 +198,20 @@ def gen_children(rng, prog):
         leaves = len(stmts)
         for (d, hs, sc, ins) in stmts:
             lines.append([12, cl, child, d, 1, hs, len(sc)] + list(sc))
-            for slot, (kind, ref) in enumerate(ins):
-                lines.append([13, cl, child, slot, kind, ref])
+            for slot, inp in enumerate(ins):
+                lines.append([13, cl, child, slot, inp[0], inp[1], inp[2] if len(inp) > 2 else -1])
             cl += 1
         if leaves >= 2 and rng.random() < 0.6:                        # a consumer of two child-local nodes
             a, b = rng.sample(range(leaves), 2)
             lines.append([12, cl, child, 3, 1, 0, 0])
-            lines.append([13, cl, child, 0, 0, a])
-            lines.append([13, cl, child, 1, 0, b])
+            lines.append([13, cl, child, 0, 0, a, -1])
+            lines.append([13, cl, child, 1, 0, b, -1])
     return lines
 
 
 def src_refs(s):
     """(peer labels, placeholder labels) mentioned in a source."""
-    if s[0] == "p":
+    if s[0] in ("p", "e"):
         return [s[1]], []
     if s[0] == "d":
         return [], [s[1]]
@@ -305,6 +327,10 @@ def gen_program(rng, tier, prop):
         feats.add(rng.choice(["cyc_self", "cyc_2", "cyc_long", "cyc_dep", "cyc_dep_merge"]))
     if rng.random() < (0.25 if prop == "C01" else 0.12):
         feats.add("service")
+    if rng.random() < 0.25:
+        feats.add("errport")
+    if rng.random() < 0.25:
+        feats.add("passive_deep")
     if rng.random() < 0.04:
         feats.add(rng.choice(["unbound", "rebind", "selfdep", "pushdep", "unbound_free", "allpassive"]))
     dup_rate = 0.35 if prop == "C06" else 0.15
@@ -509,6 +535,63 @@ def gen_program(rng, tier, prop):
             add({"t": "dep", "a": b, "b": a})     # later node after earlier node: consistent with the canonical order
             if rng.random() < 0.3:
                 add({"t": "dep", "a": b, "b": a})   # duplicate: de-duplicated by the code
+    # passive markers do not loosen the ranking: a reader whose passive input's producer sits at the end of a
+    # longer chain (its active input is ready early), is wired later (placeholder), or closes a cycle
+    if "passive_deep" in feats:
+        srcs = [v for v in vals if prog[v]["kind"] == 0] or vals
+        for _ in range(rng.choice([1, 2])):
+            s0 = rng.choice(srcs)
+            chain = compute([_inp(("p", s0, ()))], out=1)
+            for _ in range(rng.choice([1, 2, 3])):
+                chain = compute([_inp(("p", chain, ()))], out=1)
+            probe = compute([_inp(("p", s0, ())), _inp(("p", chain, ()), passive=1)], out=1)
+            made += [chain, probe]
+            add(_node(2, 0, 0, ins=[_inp(("p", probe, ()))]))
+        how = rng.random()
+        if how < 0.35:          # the passive input's producer is wired LATER, through a placeholder (acyclic)
+            ph = add({"t": "place", "ty": 1})
+            ty[ph] = 1
+            s0 = rng.choice(srcs)
+            probe = compute([_inp(("p", s0, ())), _inp(("d", ph, ()), passive=1)], out=1)
+            late = compute([_inp(("p", compute([_inp(("p", s0, ()))], out=1), ()))], out=1)
+            add({"t": "bind", "ph": ph, "ref": late, "path": ()})
+            made += [probe, late]
+            add(_node(2, 0, 0, ins=[_inp(("p", probe, ()))]))
+        elif how < 0.6:         # a cycle closed through a passive input, no feedback node: must be rejected
+            ph = add({"t": "place", "ty": 1})
+            ty[ph] = 1
+            s0 = rng.choice(srcs)
+            first = compute([_inp(("p", s0, ())), _inp(("d", ph, ()), passive=1)], out=1)
+            last = first
+            for _ in range(rng.choice([0, 1, 2])):
+                last = compute([_inp(("p", last, ()))], out=1)
+            add({"t": "bind", "ph": ph, "ref": last, "path": ()})
+            made.append(last)
+    # hidden error outputs (exception_time_series): (a) a consumer whose ONLY dependency on a deep producer is
+    # the producer's error output and whose other input is ready early; (b) a duplicate of the producer wired
+    # after the capture (a later order swaps it in front): it must share the captured node.
+    if "errport" in feats:
+        pool = [m for m in made if prog[m]["kind"] == 1 and not prog[m]["uniq"] and prog[m]["out"] != 0]
+        for _ in range(rng.choice([1, 2])):
+            if not pool:
+                break
+            p0 = rng.choice(pool)
+            deep = compute([_inp(("p", p0, ()))])                         # one more level below p0
+            deep2 = compute([_inp(("p", deep, ()))])
+            made += [deep, deep2]
+            early = rng.choice([v for v in vals if prog[v]["kind"] == 0] or vals)
+            src_e = ("e", deep2, ())
+            if rng.random() < 0.3:
+                src_e = ("s", (("n",), ("p", early, ()))) if False else src_e
+            errc = compute([_inp(("p", early, ())), _inp(src_e)], out=1)
+            made.append(errc)
+            st = prog[deep2]
+            q = add(_node(1, st["def"], st["out"], st["has_sc"], st["sc"], st["ins"]))   # duplicate AFTER the capture
+            made.append(q)
+            add(_node(2, 0, 0, ins=[_inp(("p", q, ()))]))
+            add(_node(2, 1, 0, ins=[_inp(("p", errc, ()))]))
+            if rng.random() < 0.5:
+                add(_node(2, 0, 0, ins=[_inp(("e", deep2, ()))]))          # a sink on the error output itself
     # service rank contract: a hub (anchor) with >= 2 DISTINCT sending and >= 2 distinct receiving clients per
     # path.  The receivers are wired BEFORE the hub and the senders AFTER it, i.e. on the wrong side by insertion
     # order; all of them tick with one common source so that the hand-over of a cycle is observable.
@@ -628,6 +711,19 @@ def passive_pairs(prog):
     return out
 
 
+def capture_swaps(prog):
+    """labels a: statement a reads an error output of p and statement a+1 is a duplicate of p"""
+    out = []
+    for a in range(len(prog) - 1):
+        x, y = prog[a], prog[a + 1]
+        if not (is_node(x) and is_node(y)):
+            continue
+        errs = [i["src"][1] for i in x["ins"] if i["src"][0] == "e"]
+        if any(is_node(prog[p]) and marker_free(prog[p]) == marker_free(y) for p in errs) and a not in stmt_needs(y):
+            out.append(a)
+    return out
+
+
 def gen(rng, tier, prop):
     prog = gen_program(rng, tier, prop)
     n_orders = 4 if tier == "quick" else rng.choice([4, 6, 8])
@@ -636,6 +732,12 @@ def gen(rng, tier, prop):
     if pairs:                   # the same program with every marker pair written in the other order
         o = list(range(len(prog)))
         for a in pairs:
+            o[a], o[a + 1] = o[a + 1], o[a]
+        orders.append(o)
+    caps = capture_swaps(prog)
+    if caps:                    # "p err q" (as listed) and "p q err"
+        o = list(range(len(prog)))
+        for a in caps:
             o[a], o[a + 1] = o[a + 1], o[a]
         orders.append(o)
     while len(orders) < n_orders:
@@ -677,6 +779,10 @@ def parse_out(out):
             d["runerr"] = 1
         elif l[0] == 27:
             d.setdefault("active", {})[l[2]] = tuple(l[3:])
+        elif l[0] == 29:
+            d["stable"] = l[2]
+        elif l[0] == 30:
+            d["captured"] = tuple(l[2:])
         elif l[0] == 28:
             d.setdefault("children", {})[l[2]] = (l[3], dict(zip(l[4::2], l[5::2])))
     return res
@@ -691,9 +797,13 @@ def bypasses(st):
     return st["out"] == 0 or st["uniq"] == 1 or st["kind"] in (3, 4, 5)
 
 
+def src_has_err(s):
+    return s[0] == "e" or (s[0] == "s" and any(src_has_err(c) for c in s[1]))
+
+
 def src_map(s, f):
-    if s[0] == "p":
-        return ("p", f(s[1]), s[2])
+    if s[0] in ("p", "e"):
+        return (s[0], f(s[1]), s[2])
     if s[0] == "s":
         return ("s", tuple(src_map(c, f) for c in s[1]))
     return s
@@ -716,7 +826,7 @@ def rank_graph(prog, rep):
     edges = set()
 
     def prods(s):
-        if s[0] == "p":
+        if s[0] in ("p", "e"):
             return [s[1]]
         if s[0] == "d":
             return [binds[s[1]]] if s[1] in binds else []
@@ -740,6 +850,73 @@ def rank_graph(prog, rep):
         if st["t"] == "client" and st["path"] in anchors and anchors[st["path"]] != rep[st["ref"]]:
             edges.add((anchors[st["path"]], rep[st["ref"]]) if st["recv"] else (rep[st["ref"]], anchors[st["path"]]))
     return edges
+
+
+def canonical_order(prog, order, rep):
+    """THE compiled order as graph_wiring.cpp documents it: Kahn's algorithm over the wired nodes in insertion
+    order; a node's producers are discovered input by input (structural children left to right), then its
+    explicit rank dependencies in the order they were added (add_rank_dependency statements as executed, then
+    the service rank contract, client by client); ready nodes are taken first-in first-out, push sources
+    before everything else; insertion order breaks ties.  None when a cycle / push-source dependency exists."""
+    binds = {}
+    for l in order:
+        st = prog[l]
+        if st["t"] == "bind" and st["ph"] not in binds:
+            binds[st["ph"]] = st["ref"]
+    insts = [l for l in order if is_node(prog[l]) and rep[l] == l]
+    deps = []
+
+    def add_dep(a, b):
+        if a != b and (a, b) not in deps:
+            deps.append((a, b))
+    anchors, clients = {}, []
+    for l in order:
+        st = prog[l]
+        if st["t"] == "dep":
+            add_dep(rep[st["a"]], rep[st["b"]])
+        elif st["t"] == "anchor":
+            anchors.setdefault(st["path"], rep[st["ref"]])
+        elif st["t"] == "client":
+            clients.append((st["path"], rep[st["ref"]], st["recv"]))
+    for (p, c, recv) in clients:
+        if p in anchors and anchors[p] != c:
+            add_dep(c, anchors[p]) if recv else add_dep(anchors[p], c)
+
+    def prods(s):
+        if s[0] in ("p", "e"):
+            return [rep[s[1]]]
+        if s[0] == "d":
+            return [rep[binds[s[1]]]] if s[1] in binds else []
+        if s[0] == "s":
+            return [x for c in s[1] for x in prods(c)]
+        return []
+    indeg = {c: 0 for c in insts}
+    cons = {c: [] for c in insts}
+    for c in insts:
+        for i in prog[c]["ins"]:
+            if i["rank"]:
+                for p in prods(i["src"]):
+                    if p in indeg:
+                        indeg[c] += 1
+                        cons[p].append(c)
+        for (a, b) in deps:
+            if a == c and b in indeg:
+                indeg[c] += 1
+                cons[b].append(c)
+    is_push = lambda c: prog[c]["kind"] == 3
+    if any(is_push(c) and indeg[c] for c in insts):
+        return None
+    qp = [c for c in insts if indeg[c] == 0 and is_push(c)]
+    q = [c for c in insts if indeg[c] == 0 and not is_push(c)]
+    out = []
+    while qp or q:
+        c = qp.pop(0) if qp else q.pop(0)
+        out.append(c)
+        for x in cons[c]:
+            indeg[x] -= 1
+            if indeg[x] == 0:
+                (qp if is_push(x) else q).append(x)
+    return out if len(out) == len(insts) else None
 
 
 def has_cycle(edges):
@@ -810,18 +987,19 @@ def oracle(prop, case, out):
         for child, (err, crep) in (o.get("children") or {}).items():
             sts = children.get(child, {})
             if err:
-                fails.append(("merge", "order %d: sub-graph wiring %d failed" % (k, child)))
+                fails.append(("subgraph_merge", "order %d: sub-graph wiring %d failed" % (k, child)))
                 continue
 
             def ccfg(c):
                 st = sts[c]
                 return (st["def"], st["out"], st["has_sc"], st["sc"] if st["has_sc"] else (),
                         tuple((kind, crep.get(ref, -7) if kind == 0 else
-                               (prep[ref] if kind == 5 and 0 <= ref < len(prep) else ref)) for kind, ref in st["ins"]))
+                               (prep[ref] if kind == 5 and 0 <= ref < len(prep) else ref), elem) for kind, ref, elem in st["ins"]))
             for c, r in crep.items():
                 if c in sts and r in sts and r != c and ccfg(c) != ccfg(r):
-                    fails.append(("merge", "order %d: sub-graph wiring %d: statements %d and %d differ (inputs %s vs %s; 4 = declared "
-                                           "argument, 5 = captured outer port) but share one node" % (k, child, c, r, sts[c]["ins"], sts[r]["ins"])))
+                    fails.append(("subgraph_merge", "order %d: sub-graph wiring %d: statements %d and %d differ (inputs %s vs %s as (kind, ref, "
+                                  "element); 4 = declared argument, 5 = captured outer port) but share one node: the compiled child has "
+                                  "fewer nodes than the inlined wiring" % (k, child, c, r, sts[c]["ins"], sts[r]["ins"])))
         code, reps = o["code"], o["reps"]
         verdicts.add(code)
         if code == 5:
@@ -862,6 +1040,20 @@ def oracle(prop, case, out):
         if sorted(nodes) != classes:
             fails.append(("perm", "order %d: compiled nodes %s are not the distinct wired nodes %s" % (k, nodes[:12], classes[:12])))
             continue
+        # a passive-marked input is not among the node's active inputs; every other rank input is
+        for c, act in (o.get("active") or {}).items():
+            if 0 <= c < len(prog) and is_node(prog[c]) and not prog[c]["uniq"]:
+                want = tuple(j for j, i in enumerate(prog[c]["ins"]) if i["rank"] and not i.get("passive"))
+                if tuple(act) != want:
+                    fails.append(("passive_marker_ignored", "order %d: node of statement %d has active inputs %s, its statement asks for %s "
+                                  "(passive markers %s)" % (k, c, list(act), list(want), [i.get("passive", 0) for i in prog[c]["ins"]])))
+        want_order = canonical_order(prog, orders[k], rep)
+        if want_order is not None and list(nodes) != want_order:
+            d = next(i for i, (a, b) in enumerate(zip(nodes, want_order)) if a != b)
+            fails.append(("order_not_canonical", "order %d: compiled node order differs from the insertion-order Kahn order at index %d "
+                          "(statement %d, expected %d)" % (k, d, nodes[d], want_order[d])))
+        if o.get("stable") == 0:
+            fails.append(("order_not_canonical", "order %d: building the same wiring again in this process compiled a different node order" % k))
         idx = {c: i for i, c in enumerate(nodes)}
         # every compiled edge that is not rank-free goes forward
         for (s, sp, t, tp) in o["edges"]:
@@ -883,7 +1075,7 @@ def oracle(prop, case, out):
         binds = {st["ph"] for st in prog if st["t"] == "bind"}
 
         def leaves(s):
-            if s[0] == "p":
+            if s[0] in ("p", "e"):
                 return 1
             if s[0] == "d":
                 return 1 if s[1] in binds else 0
@@ -950,6 +1142,9 @@ def stats(case, out):
          "with_forward_reference": int(any(is_node(st) and any(i["rank"] and src_refs(i["src"])[1] for i in st["ins"]) for st in prog)),
          "with_passive_marker": int(any(is_node(st) and any(i.get("passive") for i in st["ins"]) for st in prog)),
          "with_passive_marker_pair": int(bool(passive_pairs(prog))),
+         "with_passive_on_late_producer": int(any(is_node(st) and any(i.get("passive") and i["rank"] and i["src"][0] == "d" for i in st["ins"]) for st in prog)),
+         "with_error_port_reader": int(any(is_node(st) and any(src_has_err(i["src"]) for i in st["ins"]) for st in prog)),
+         "with_capture_between_duplicates": int(bool(capture_swaps(prog))),
          "with_service_endpoint": int(any(st["t"] == "anchor" for st in prog)),
          "service_clients": sum(1 for st in prog if st["t"] == "client"),
          "with_subgraph_wiring": int(any(l[0] == 12 for l in case)),
@@ -976,7 +1171,7 @@ def stats(case, out):
 
 # --------------------------------------------------------------------------- shrinking
 def _remap_src(s, m):
-    if s[0] in ("p", "d"):
+    if s[0] in ("p", "d", "e"):
         return (s[0], m[s[1]], s[2])
     if s[0] == "s":
         return ("s", tuple(_remap_src(c, m) for c in s[1]))
